@@ -69,7 +69,7 @@ PROPS = {
         "rule": "1..3 intermediate catch events (signal / message) in sequence, in parallel, or behind a task, optionally with a catch + throw event on a branch that is never taken; event histories of 0..8 events (matching, non-matching, repeated) + the awaited ones, delivered one at a time at quiescent moments interleaved with task answers (exact listener model) or from their own goroutines at arbitrary trace counts (safety bounds only); every ConsumeEvent call is stamped; distinct = schedule hash; non-trivial = at least one event delivered and a context switch",
     },
     "C14": {
-        "level": "exploration", "quick_s": 30, "thorough_s": 600, "thorough_seeds": 4,
+        "level": "exploration", "quick_s": 45, "thorough_s": 600, "thorough_seeds": 4,
         "rule": "a process with one multiple / parallel-multiple intermediate catch event over 1..4 signal/message definitions inside a loop (re-armed up to 3 times); event histories of 0..9 events including non-matching ones, delivered at quiescent moments interleaved with task answers; oracle: listener counting model in the token game + bounds computed from the engine's own EventObservedTrace/LeaveTrace + sequential cross-check of logic.CatchEventSatisfier over the same history; distinct = schedule hash; non-trivial = an event delivered and a context switch",
     },
     "C06": {
